@@ -29,7 +29,7 @@ STRATA = ["named", "named", "named", "other_role", "untrusted_own", "union", "be
 EXTRA_NAMES = []
 
 
-def gen_case(rng, gpg=None, stratum=None):
+def gen_case(rng, gpg=None, stratum=None, spec_version_prob=0.15):
     if gpg is None:
         gpg = rng.random() < 0.4
     if stratum is None:
@@ -127,8 +127,12 @@ def gen_case(rng, gpg=None, stratum=None):
             usigned["extra"] = [None, {"x": 1.5}]
         elif shape == "far_future":
             usigned["timestamp"], usigned["expiration"] = "9998-01-01T00:00:00Z", "9999-12-31T23:59:59Z"
-        if rng.random() < 0.15:
-            usigned["metadata_spec_version"] = rng.choice(["1.0.0", "2.0.0-\u00e9", "1.0.0\ud800", "", "\U0001f600.0.0"])
+        if rng.random() < spec_version_prob:
+            # specification versions other than the library's own - mostly strings this process has never seen before (whatever a
+            # version of the library remembers about version strings it has met must not matter)
+            usigned["metadata_spec_version"] = rng.choice(["1.0.0", "2.0.0-\u00e9", "1.0.0\ud800", "", "\U0001f600.0.0",
+                                                           "0.%d.%d" % (rng.randrange(7, 10**6), rng.randrange(100)), "0.6.%d" % rng.randrange(1, 10**6),
+                                                           "%d.0.0" % rng.randrange(1, 10**6), "0.%d.%d" % (rng.randrange(7, 10**6), rng.randrange(100))])
     else:
         usigned = jsonvals.rand_payload(rng)
         if rng.random() < 0.3:
